@@ -14,6 +14,7 @@ CONSTANTS
   Tag = "C16"
   SoftTargets <- C16Soft
   HardTargets <- C16Hard
+  LinkCounts = {}
   SureCases = TRUE
   OnlyLastMayFail = FALSE
 SPECIFICATION LSpec
